@@ -255,7 +255,7 @@ def s_ints():
     b = st.builds(lambda b, d, s: s * (b + d), st.sampled_from([0, 1, 2 ** 31, 2 ** 63, 2 ** 64]), st.integers(-2, 2),
                   st.sampled_from([1, -1]))
     big = st.one_of(st.integers(1, 70), st.integers(1, 2000)).flatmap(lambda k: st.integers(-(2 ** k), 2 ** k))
-    return st.one_of(b, big, st.integers(-300, 300), wide_ints(1, 140), wide_ints(1, 2000))
+    return st.one_of(b, b, big, st.integers(-300, 300), wide_ints(1, 140), wide_ints(1, 2000), wide_ints(62, 66))
 
 
 def s_ratcase():
@@ -317,7 +317,9 @@ def jdepth(v):
 def s_cases(thorough):
     forms = st.sampled_from(["lit", "lit", "pow", "diff", "quot", "str"])
     ints = st.builds(lambda n, f: {"t": "int", "n": n, "f": f}, s_ints(), forms)
-    radix = st.builds(lambda n, b, f: {"t": "radix", "n": n, "b": b, "f": f}, s_ints(), st.integers(2, 36), forms)
+    # values whose digit string just fills a machine word in a power-of-two base get their own weight
+    radix = st.builds(lambda n, b, f: {"t": "radix", "n": n, "b": b, "f": f}, st.one_of(s_ints(), wide_ints(63, 65), wide_ints(31, 33)),
+                      st.one_of(st.integers(2, 36), st.sampled_from([2, 4, 8, 16, 32, 10, 36])), forms)
     maxb = 1 << 20 if thorough else 1 << 13
     byts = st.one_of(st.binary(max_size=64), st.binary(max_size=600),
                      st.builds(lambda chunk, k: (chunk * k)[:maxb], st.binary(min_size=1, max_size=40), st.integers(1, maxb // 8))
